@@ -569,6 +569,11 @@ def h_links(ctx):
         for w in nonnull:
             it = cu.get_DIE_from_refaddr(w['off']).iter_children()
             next(it, None)
+    elif sched == 'top-children-then-iterate':
+        # sibling attributes let this walk step over whole subtrees: the unit's last entry gets cached while entries before it are not
+        list(cu.get_top_DIE().iter_children())
+        seq0 = [(d.offset, d.size) for d in cu.iter_DIEs()]
+        ctx.check_eq('L4/%s/iteration-after-listing-the-top-children' % sib, [o for o, _ in seq0], [w['off'] for w in want] + ([top_off + 1 + len(body)] if forest else []))
     streams['debug_info'].seek(ctx.int_range('pos', 0, len(sec)))
     got = answers(cu)
     ctx.outcome('ok')
@@ -586,7 +591,7 @@ def _links_instances(tier):
     forests = []
     for n in range(1, maxn + 1):
         forests += T._trees(n)
-    scheds = ['cold', 'full-iteration', 'abandon:1', 'abandon:2', 'abandon:3', 'children-of-each-backwards', 'parents-first-backwards', 'abandon-children']
+    scheds = ['cold', 'full-iteration', 'abandon:1', 'abandon:2', 'abandon:3', 'children-of-each-backwards', 'parents-first-backwards', 'abandon-children', 'top-children-then-iterate']
     for e, sibs in ((T.ENVS_Q[0], ('none', 'ref4')), (T.ENVS_Q[1], ('ref_addr',))):
         for forest in forests:
             for sib in sibs:
@@ -633,6 +638,11 @@ HARNESSES = [
       lambda tier: [dict(kind='elf', elfclass=c, little=l, op=o) for c, l in ((64, True), (32, False)) for o in ITER_ELF_OPS] + [dict(kind='dwarf', op=o) for o in ITER_DWARF_OPS], expect=('ok',),
       desc='L5: every iterator of the alphabet (sections, segments, symbols, dynamic tags, notes, units, entries, children, call-frame entries, name table) consumed step by step with all '
            'streams moved to a symbolic position between two steps yields what it yields when drained at once'),
+    H('h10_L6_line_header_formats', LP5.h_header,
+      lambda tier: [c for c in LP5._header_instances(tier) if c['ver'] == 5 and len(c['shape'].get('file_format', [])) == 3 and all(f == 'udata' for _, f in c['shape']['file_format'][1:])],
+      decoy='all', expect=('ok',),
+      desc='L6: a v5 line-program header decoded after another header whose entry formats have the same forms but other content types (decoy run in the same path) '
+           'gives the cold answer (harness shared with C05)'),
     H('h10_L3_memo', h_memo, _memo_instances, expect=('ok',),
       desc='L3: after any single earlier query, after pairs / longer histories and after the whole alphabet in both orders, every query returns its cold answer (unit list, entry lists, abbreviation, '
            'line-program, type-unit and decoded-table memos)'),
